@@ -1,97 +1,171 @@
 (* T5 -- close after the message.  The persistence decision of the real
    system is taken in task.py (build_response_header) from the request's
-   version and Connection header only; it is modelled by Task.bh_conn
-   (builder of C03/C08, tied to the code by K-task).  It is proved equal to
-   the reference's close_after_of with the three deviations F7, F8 and
-   "close inside a list" switched on -- for ALL dicts and versions -- and
-   therefore equal to the strict reference exactly outside those classes.
-   parser.connection_close, on the other hand, IS set as the strict reference
-   demands for Content-Length + Transfer-Encoding (parse_header_framing): the
-   verdict is computed and then read nowhere. *)
+   version, its Connection header and -- since fix c72b27e -- the parser's
+   connection_close verdict; it is modelled by Task.bh_conn (builder of
+   C03/C08, tied to the code by K-task).  Composed with what parse_header
+   leaves in connection_close (C01Framing.model_cc, characterised by
+   parse_header_framing) it is proved equal to the reference's close_after_of,
+   for ALL dicts and versions: Content-Length + Transfer-Encoding, a
+   Transfer-Encoding on a request that is not HTTP/1.1, "close" anywhere in a
+   Connection list, HTTP/1.0 without keep-alive. *)
 From Coq Require Import List NArith ZArith Bool Lia.
 From WV Require Import Lib.PyBytes Model.Receiver Model.Parser Spec.Ref9112 Proof.C01Lib Proof.C01Framing.
 From WV Require Model.Task.
 Import ListNotations.
 Local Open Scope N_scope.
 
-(* the response of an application that supplies Content-Length *)
-Definition model_close (ver conn : bytes) : bool :=
-  Task.t_cof (Task.bh_conn Task.py_cap Task.py_lower (lower_latin1 conn) (Some [50])
+(* the response of an application that supplies Content-Length; cc = parser.connection_close *)
+Definition model_close (ver conn : bytes) (cc : bool) : bool :=
+  Task.t_cof (Task.bh_conn Task.py_cap Task.py_lower (lower_latin1 conn) cc (Some [50])
                            (Task.new_task ver false)).
-
-Definition dev_persist : devs :=
-  {| dv_trailer := false; dv_empty_chunk_line := false; dv_reqline_lf := false; dv_te_http10 := true;
-     dv_clte_keepalive := true; dv_conn_list := true; dv_te_ws_element := false; dv_target_dslash := false |}.
 
 Lemma close_ascii : ascii_word w_close.
 Proof. unfold ascii_word, w_close. repeat constructor. Qed.
 Lemma keep_alive_ascii : ascii_word w_keep_alive.
 Proof. unfold ascii_word, w_keep_alive. repeat constructor. Qed.
 
-Theorem close_decision_dev : forall dict ver,
-  model_close ver (hget_default dict s_CONNECTION []) = close_after_of dev_persist ver dict.
+Lemma model_close_11 conn cc : model_close v11 conn cc = beqb (lower_latin1 conn) s_close || cc.
 Proof.
-  intros dict ver. unfold model_close, close_after_of, hget_default.
-  change lookup with hget. change K_CONN with s_CONNECTION.
-  set (conn := match hget dict s_CONNECTION with Some v => v | None => [] end).
-  unfold Task.new_task, Task.bh_conn. cbn [Task.t_v11].
-  change [49; 46; 49] with v11.
-  destruct (beqb ver v11); cbn [negb].
-  - fold w_close. rewrite (lower_word_agree _ close_ascii).
-    cbn [has_option dev_persist dv_conn_list dv_clte_keepalive negb andb]. rewrite orb_false_r.
-    destruct (beqb (to_lower conn) w_close); reflexivity.
-  - fold w_keep_alive. rewrite (lower_word_agree _ keep_alive_ascii).
-    cbn [dev_persist dv_te_http10 negb andb]. rewrite orb_false_r.
-    destruct (beqb (to_lower conn) w_keep_alive); reflexivity.
+  unfold model_close, Task.new_task, Task.bh_conn. cbn [Task.t_v11 beqb v11 N.eqb Pos.eqb andb negb].
+  fold s_close. destruct (beqb (lower_latin1 conn) s_close || cc); reflexivity.
 Qed.
 
-(* the inputs on which the strict reference and the code part company *)
-Definition close_classes (ver : bytes) (dict : hdict) : bool :=
-  negb (Bool.eqb (close_after_of no_devs ver dict) (close_after_of dev_persist ver dict)).
-
-Theorem close_decision_partial : forall dict ver,
-  close_classes ver dict = false ->
-  model_close ver (hget_default dict s_CONNECTION []) = close_after_of no_devs ver dict.
+Lemma model_close_other ver conn cc : beqb ver v11 = false ->
+  model_close ver conn cc = negb (beqb (lower_latin1 conn) s_keep_alive) || cc.
 Proof.
-  intros dict ver H. rewrite close_decision_dev. unfold close_classes in H.
-  apply negb_false_iff in H. apply eqb_prop in H. auto.
+  intro H. unfold model_close, Task.new_task, Task.bh_conn. cbn [Task.t_v11].
+  change [49; 46; 49] with v11. rewrite H. cbn [negb]. fold s_keep_alive.
+  destruct (beqb (lower_latin1 conn) s_keep_alive), cc; reflexivity.
 Qed.
 
-(* where the reference says close, and it is the model that says so too *)
-Corollary close_when_connection_close : forall dict ver v,
-  ver = v11 -> hget dict s_CONNECTION = Some v -> beqb (to_lower v) w_close = true ->
-  model_close ver (hget_default dict s_CONNECTION []) = true.
+(* ---------------------------------------------------------------- *)
+(* "close" in the Connection list: the model's test is the reference's *)
+
+Lemma split_on_map (f : N -> N) c : (forall x, (f x =? c) = (x =? c)) -> forall s cur,
+  split_on c (map f s) (map f cur) = map (map f) (split_on c s cur).
 Proof.
-  intros dict ver v -> Hc Hv. rewrite close_decision_dev. unfold close_after_of.
-  change lookup with hget. change K_CONN with s_CONNECTION. rewrite Hc.
-  cbn [beqb v11 N.eqb Pos.eqb andb]. cbn [has_option dev_persist dv_conn_list]. rewrite Hv. reflexivity.
+  intros Hf. induction s as [|x s IH]; intro cur; cbn [map split_on].
+  - rewrite map_rev. reflexivity.
+  - rewrite Hf. destruct (x =? c).
+    + cbn [map]. rewrite map_rev. f_equal. apply (IH []).
+    + apply (IH (x :: cur)).
 Qed.
 
-Corollary close_when_http10_without_keepalive : forall dict ver,
-  beqb ver v11 = false ->
-  beqb (to_lower (hget_default dict s_CONNECTION [])) w_keep_alive = false ->
-  model_close ver (hget_default dict s_CONNECTION []) = true.
+Lemma drop_while_map (f : N -> N) (g : N -> bool) : (forall x, g (f x) = g x) -> forall s,
+  drop_while g (map f s) = map f (drop_while g s).
 Proof.
-  intros dict ver Hv Hk. rewrite close_decision_dev. unfold close_after_of. rewrite Hv.
-  unfold hget_default in Hk. change lookup with hget. change K_CONN with s_CONNECTION.
-  rewrite Hk. reflexivity.
+  intros H. induction s as [|x s IH]; cbn [map drop_while]; auto. rewrite H.
+  destruct (g x); auto.
 Qed.
 
-(* F7: Content-Length + Transfer-Encoding: chunked on HTTP/1.1, no Connection header *)
-Definition f7_dict : hdict := [(s_CONTENT_LENGTH, [51]); (s_TRANSFER_ENCODING, s_chunked)].
-Lemma close_refuted_clte :
-  close_after_of no_devs v11 f7_dict = true /\ model_close v11 (hget_default f7_dict s_CONNECTION []) = false.
-Proof. split; vm_compute; reflexivity. Qed.
+Lemma trim_map (f : N -> N) (g : N -> bool) : (forall x, g (f x) = g x) -> forall s,
+  trim g (map f s) = map f (trim g s).
+Proof.
+  intros H s. unfold trim. rewrite (drop_while_map f g H), <- map_rev, (drop_while_map f g H), map_rev.
+  reflexivity.
+Qed.
 
-(* F8: HTTP/1.0 keep-alive with Transfer-Encoding *)
-Definition f8_dict : hdict := [(s_CONNECTION, w_keep_alive); (s_TRANSFER_ENCODING, s_chunked)].
-Lemma close_refuted_te_http10 :
-  close_after_of no_devs v10 f8_dict = true /\ model_close v10 (hget_default f8_dict s_CONNECTION []) = false.
-Proof. split; vm_compute; reflexivity. Qed.
+Lemma lower_comma x : (lower_latin1_c x =? 44) = (x =? 44).
+Proof.
+  unfold lower_latin1_c.
+  destruct ((65 <=? x) && (x <=? 90)) eqn:A.
+  - apply andb_true_iff in A as [A1 A2]. apply N.leb_le in A1, A2.
+    transitivity false; [|symmetry]; apply N.eqb_neq; lia.
+  - destruct ((192 <=? x) && (x <=? 222) && negb (x =? 215)) eqn:B; auto.
+    apply andb_true_iff in B as [B _]. apply andb_true_iff in B as [B1 B2]. apply N.leb_le in B1, B2.
+    transitivity false; [|symmetry]; apply N.eqb_neq; lia.
+Qed.
 
-(* Connection: close, x *)
-Definition conn_list_dict : hdict := [(s_CONNECTION, w_close ++ [44; 32; 120])].
-Lemma close_refuted_conn_list :
-  close_after_of no_devs v11 conn_list_dict = true
-  /\ model_close v11 (hget_default conn_list_dict s_CONNECTION []) = false.
-Proof. split; vm_compute; reflexivity. Qed.
+Lemma lower_ows x : is_ows (lower_latin1_c x) = is_ows x.
+Proof.
+  unfold is_ows, lower_latin1_c.
+  destruct ((65 <=? x) && (x <=? 90)) eqn:A.
+  - apply andb_true_iff in A as [A1 A2]. apply N.leb_le in A1, A2.
+    replace (x + 32 =? 32) with false by (symmetry; apply N.eqb_neq; lia).
+    replace (x + 32 =? 9) with false by (symmetry; apply N.eqb_neq; lia).
+    replace (x =? 32) with false by (symmetry; apply N.eqb_neq; lia).
+    replace (x =? 9) with false by (symmetry; apply N.eqb_neq; lia). reflexivity.
+  - destruct ((192 <=? x) && (x <=? 222) && negb (x =? 215)) eqn:B; auto.
+    apply andb_true_iff in B as [B _]. apply andb_true_iff in B as [B1 B2]. apply N.leb_le in B1, B2.
+    replace (x + 32 =? 32) with false by (symmetry; apply N.eqb_neq; lia).
+    replace (x + 32 =? 9) with false by (symmetry; apply N.eqb_neq; lia).
+    replace (x =? 32) with false by (symmetry; apply N.eqb_neq; lia).
+    replace (x =? 9) with false by (symmetry; apply N.eqb_neq; lia). reflexivity.
+Qed.
+
+Lemma existsb_map {A B} (g : B -> bool) (h : A -> B) l : existsb g (map h l) = existsb (fun x => g (h x)) l.
+Proof. induction l; cbn; auto. rewrite IHl. reflexivity. Qed.
+
+Lemma existsb_ext_b {A} (f g : A -> bool) l : (forall x, f x = g x) -> existsb f l = existsb g l.
+Proof. intro H. induction l; cbn; auto. rewrite H, IHl. reflexivity. Qed.
+
+Lemma existsb_filter_nonempty w l : nonempty w = true ->
+  existsb (fun e => beqb e w) (filter nonempty l) = existsb (fun e => beqb e w) l.
+Proof.
+  intro Hw. induction l as [|e l IH]; cbn [filter existsb]; auto.
+  destruct (nonempty e) eqn:E; cbn [existsb]; rewrite IH; auto.
+  destruct e; [|discriminate]. destruct w; [discriminate|]. reflexivity.
+Qed.
+
+Lemma close_in_list conn :
+  existsb (fun t => beqb (strip_by is_sp_htab t) s_close) (split (lower_latin1 conn) [44])
+  = has_option w_close conn.
+Proof.
+  unfold has_option, list_elems. rewrite (existsb_filter_nonempty w_close) by reflexivity.
+  rewrite split_comma. unfold lower_latin1.
+  change (split_on 44 (map lower_latin1_c conn) []) with (split_on 44 (map lower_latin1_c conn) (map lower_latin1_c [])).
+  rewrite (split_on_map lower_latin1_c 44 lower_comma conn []).
+  rewrite !existsb_map. apply existsb_ext_b. intro e.
+  rewrite strip_sp_htab. rewrite (trim_map lower_latin1_c is_ows lower_ows).
+  change s_close with w_close. apply (lower_word_agree _ close_ascii).
+Qed.
+
+Lemma exact_close_in_list conn : beqb (lower_latin1 conn) s_close = true ->
+  existsb (fun t => beqb (strip_by is_sp_htab t) s_close) (split (lower_latin1 conn) [44]) = true.
+Proof.
+  intro H. apply beqb_eq in H. rewrite H. reflexivity.
+Qed.
+
+(* ---------------------------------------------------------------- *)
+
+Theorem close_decision : forall dict ver,
+  (forall v, hget dict s_CONTENT_LENGTH = Some v -> clean v = true) ->
+  model_close ver (hget_default dict s_CONNECTION []) (model_cc dict ver) = close_after_of ver dict.
+Proof.
+  intros dict ver Hclean. unfold close_after_of.
+  change lookup with hget. change K_CONN with s_CONNECTION. change K_CL with s_CONTENT_LENGTH.
+  change K_TE with s_TRANSFER_ENCODING.
+  fold (hget_default dict s_CONNECTION []).
+  set (conn := hget_default dict s_CONNECTION []).
+  destruct (beqb ver v11) eqn:E.
+  - apply beqb_eq in E. subst ver. rewrite model_close_11.
+    unfold model_cc. fold conn. change (beqb v11 s_1_0) with false. change (beqb v11 s_1_1) with true.
+    cbn [andb orb]. rewrite close_in_list.
+    pose proof (framing_decision dict v11 Hclean) as FD.
+    assert (Ech : match model_framing dict v11 with MChunked => present dict s_CONTENT_LENGTH | _ => false end
+                  = match framing_of v11 dict with FrChunked => true | _ => false end
+                    && match hget dict s_CONTENT_LENGTH with Some _ => true | None => false end).
+    { rewrite <- FD. destruct (model_framing dict v11); reflexivity. }
+    rewrite Ech.
+    destruct (beqb (lower_latin1 conn) s_close) eqn:Ex.
+    + rewrite <- close_in_list, (exact_close_in_list conn Ex). reflexivity.
+    + cbn [orb]. apply orb_comm.
+  - rewrite (model_close_other ver conn _ E). unfold model_cc. fold conn.
+    change s_1_1 with v11. rewrite E. unfold present.
+    change s_keep_alive with w_keep_alive. rewrite (lower_word_agree _ keep_alive_ascii).
+    destruct (beqb (to_lower conn) w_keep_alive), (beqb ver s_1_0),
+             (hget dict s_TRANSFER_ENCODING); reflexivity.
+Qed.
+
+(* the cases of the statement *)
+Example close_clte :
+  close_after_of v11 [(s_CONTENT_LENGTH, [51]); (s_TRANSFER_ENCODING, s_chunked)] = true.
+Proof. reflexivity. Qed.
+Example close_te_http10 :
+  close_after_of v10 [(s_CONNECTION, w_keep_alive); (s_TRANSFER_ENCODING, s_chunked)] = true.
+Proof. reflexivity. Qed.
+Example close_conn_list : close_after_of v11 [(s_CONNECTION, w_close ++ [44; 32; 120])] = true.
+Proof. reflexivity. Qed.
+Example keep_open : close_after_of v11 [(s_CONNECTION, w_keep_alive)] = false
+                    /\ close_after_of v10 [(s_CONNECTION, w_keep_alive)] = false.
+Proof. split; reflexivity. Qed.
